@@ -599,6 +599,7 @@ Proof.
       { exact Hrow. }
       { rewrite tracker_first, Hit. reflexivity. }
       { exact Hc0. }
+      { apply pac_ready_reset. reflexivity. }
       { unfold tab_eff. cbn [app has_break_before rev has_break_before_rev is_text is_break i_kind current_position tk_pos].
         rewrite <- (tracker_first (tk_default tk)). apply tracker_new. exact Hk. }
       { intros s. apply (add_chars_fresh (row_pos r) [] (row_pos r) SOn []). reflexivity. }
@@ -609,6 +610,7 @@ Proof.
       { exact Hrow. }
       { rewrite tracker_first, Hit. reflexivity. }
       { exact Hc0. }
+      { apply pac_ready_reset. reflexivity. }
       { unfold tab_eff. cbn [has_break_before rev has_break_before_rev].
         rewrite <- (tracker_first (tk_default tk)). apply tracker_new. exact Hk. }
       { intros s. apply add_chars_first5. }
